@@ -296,6 +296,18 @@ fn big_payload() -> Vec<u8> {
     let mut x: u64 = 0x9E3779B97F4A7C15;
     (0..96 * 1024).map(|_| { x = x.wrapping_mul(6364136223846793005).wrapping_add(1442695040888963407); (x >> 33) as u8 }).collect()
 }
+fn codec_shaped_payloads() -> Vec<(&'static str, Vec<u8>)> {
+    // a raw DEFLATE stream consisting of one final STORED block (01 LEN NLEN data) around 40 pseudo-random bytes
+    let inner: Vec<u8> = big_payload()[..40].to_vec();
+    let mut stored = vec![0x01u8, 40, 0, !40u8, 0xFF];
+    stored.extend_from_slice(&inner);
+    vec![
+        ("the empty DEFLATE stream 03 00", vec![0x03, 0x00]),
+        ("a DEFLATE stored block around 40 random bytes", stored),
+        ("the empty Brotli stream 06", vec![0x06]),
+        ("the empty Brotli stream 3b", vec![0x3b]),
+    ]
+}
 const BIG_RANGES: [(usize, usize); 8] = [(0, 1), (1, 4095), (4096, 1), (5000, 100), (40000, 2000), (65536, 4096), (98303, 1), (0, 98304)];
 
 pub fn run_special(b: Base, w: Wrap, family: &str, loc: &str) -> Result<(), (String, String)> {
@@ -334,6 +346,40 @@ fn run_special_inner(b: Base, w: Wrap, family: &str, loc: &str) -> Result<(), (S
                 Ok(Ok(d)) if d == format!("v{}", i).as_bytes() => {}
                 x => return Err(err(format!("read({}) = {:?}", k, x))),
             }
+        }
+    } else if family == "codec-shaped" {
+        // payloads that are THEMSELVES well-formed codec streams and do not shrink when compressed (seed C17-m10: a wrapper that stores
+        // incompressible content as-is and falls back to the raw bytes when decoding fails hands back the decoded INNER message)
+        let shaped = codec_shaped_payloads();
+        for (i, (_, data)) in shaped.iter().enumerate() {
+            match g(|| ad.write_object(&format!("c{}.pack", i), data).map_err(|e| e.to_string())) {
+                Ok(Ok(())) => {}
+                x => return Err(err(format!("write(c{}.pack) = {:?}", i, x))),
+            }
+        }
+        let check = |ad: &Box<dyn Adapter>, when: &str| -> Result<(), (String, String)> {
+            for (i, (what, data)) in shaped.iter().enumerate() {
+                match g(|| ad.read_object(&format!("c{}.pack", i), 0, 0).map_err(|e| e.to_string())) {
+                    Ok(Ok(d)) if &d == data => {}
+                    x => return Err(err(format!("{}read of {} ({} bytes written) = {:?}", when, what, data.len(), x.map(|r| r.map(|d| d.len()))))),
+                }
+                if data.len() >= 2 {
+                    match g(|| ad.read_object(&format!("c{}.pack", i), 1, data.len() - 1).map_err(|e| e.to_string())) {
+                        Ok(Ok(d)) if d == data[1..] => {}
+                        x => return Err(err(format!("{}read({}, 1, {}) = {:?}", when, what, data.len() - 1, x.map(|r| r.map(|d| d.len()))))),
+                    }
+                }
+            }
+            Ok(())
+        };
+        check(&ad, "")?;
+        if b == Base::Filesystem || b == Base::SqliteFile {
+            drop(ad);
+            let fresh = match g(|| open(b, w, loc)) {
+                Ok(Ok(a)) => a,
+                x => return Err(err(format!("reopening the location failed: {:?}", x.map(|r| r.map(|_| ())))))
+            };
+            check(&fresh, "after reopen: ")?;
         }
     } else {
         let data = big_payload();
@@ -407,7 +453,7 @@ fn bounds(b: Base, w: Wrap, thorough: bool) -> (usize, usize) {
 
 pub fn run(thorough: bool, _seed: u64) -> Report {
     let mut bound = String::from(
-        "op sequences over keys {aa.pack, ab.pack, aa.delta}, payloads {empty, \"x\", \"hello world\", 300 binary bytes}, ops {write(k,p), read(k,0,0), read(k,off,len) for (0,1),(3,5),(255,45), list(.pack|.delta|\"\")} = 27 ops (full alphabet F) and an 11-op sub-alphabet R (2 keys x {empty, \"hello world\"}, reads, read(k,3,5), lists); plus per back end two fixed families: tricky-listing (9 keys / 11 suffixes with upper case, `_`, `%`, nested suffixes) and big-slices (one 96 KiB incompressible object, full read + 8 slices, reopen); per back end (len F, len R): ",
+        "op sequences over keys {aa.pack, ab.pack, aa.delta}, payloads {empty, \"x\", \"hello world\", 300 binary bytes}, ops {write(k,p), read(k,0,0), read(k,off,len) for (0,1),(3,5),(255,45), list(.pack|.delta|\"\")} = 27 ops (full alphabet F) and an 11-op sub-alphabet R (2 keys x {empty, \"hello world\"}, reads, read(k,3,5), lists); plus per back end two fixed families: tricky-listing (9 keys / 11 suffixes with upper case, `_`, `%`, nested suffixes) big-slices (one 96 KiB incompressible object, full read + 8 slices, reopen) and codec-shaped (4 small payloads that are themselves well-formed DEFLATE / Brotli streams, full read + one slice, reopen); per back end (len F, len R): ",
     );
     let mut rep_cases: Vec<(Base, Wrap, Vec<Vec<Op>>)> = vec![];
     let full = full_alphabet();
@@ -458,7 +504,7 @@ pub fn run(thorough: bool, _seed: u64) -> Report {
     }
     for b in [Base::Memory, Base::SqliteMem, Base::Filesystem, Base::SqliteFile] {
         for w in [Wrap::Bare, Wrap::Flate, Wrap::Brotli] {
-            for family in ["tricky-listing", "big-slices"] {
+            for family in ["tricky-listing", "big-slices", "codec-shaped"] {
                 n += 1;
                 let name = backend_name(b, w);
                 let key = format!("{}:{}", name, family);
